@@ -276,6 +276,25 @@ def check(prog, src, lidx, variant, schedule):
     except Exception as err:        # pylint: disable=broad-except
         return "unwritable:" + psy.exc_key(err), None, {}
     info = {"directive": clauses["text"], "nontrivial_body": body_facts(loop)}
+    # Scalars the directive privatises (other than loop variables) whose
+    # value is observable after the region: the property excludes them, so
+    # whole-program real runs are not comparable for such cases.
+    from psyclone.psyir.nodes import Reference
+    lvars = {lp.variable.name.lower() for lp in loop.walk(Loop)}
+    priv = (set(clauses["private"]) | set(clauses["firstprivate"])) - lvars
+    after = set()
+    node = directive
+    while node is not None and node.parent is not None:
+        for sib in node.parent.children[node.position + 1:]:
+            after |= {r.symbol.name.lower() for r in sib.walk(Reference)}
+        if isinstance(node.parent.parent, Loop) or \
+                type(node.parent.parent).__name__ == "WhileLoop":
+            # a later iteration of an enclosing loop can read it too
+            after |= {r.symbol.name.lower()
+                      for r in node.parent.parent.walk(Reference)}
+        node = node.parent
+    argnames = {v.name.lower() for v in prog.args}
+    info["private_observable"] = sorted(priv & (after | argnames))
     sim = Sim(clauses, loop, None)
     max_trips = 0
     for num, inp in enumerate(prog.inputs):
@@ -386,7 +405,8 @@ def run(ctx):
             ctx.fail("schedule-dependent", case,
                      f"{info.get('directive')}: {msg}")
             return
-        if real_budget[0] > 0 and info.get("max_trips", 0) >= 2:
+        if real_budget[0] > 0 and info.get("max_trips", 0) >= 2 and \
+                not info.get("private_observable"):
             real_budget[0] -= 1
             try:
                 new_text = psy.write(info["tree"])
